@@ -560,3 +560,12 @@ func isAcraFn(fn *ssa.Function) bool {
 	p := fn.Pkg.Pkg.Path()
 	return strings.HasPrefix(p, "github.com/cossacklabs/acra") && !strings.Contains(p, "/zz_verif") && !strings.HasPrefix(fn.Name(), "Verif") && !strings.HasPrefix(fn.Name(), "verif")
 }
+
+func (i *interpreter) globalCell(g *ssa.Global) *value {
+	if r, ok := i.globals[g]; ok {
+		return r
+	}
+	cell := zero(mustDeref(g.Type()))
+	i.globals[g] = &cell
+	return &cell
+}
